@@ -30,8 +30,11 @@ def _run_config(args):
         prefixes += list(itertools.product(alphabet, repeat=L))
     D = z3.Function('DUR_FROM_F32', F32, z3.BitVecSort(128)); S = z3.Function('DUR_AS_F32', z3.BitVecSort(128), F32)
     for pre in prefixes:
-        for tail in ('split2', 'split3', 'zero', 'zero-mid'):
-            if tail == 'split2': ops = list(pre) + [('adv',), ('adv',)]
+        if len(res['sat']) + len(res['problems']) >= 16:
+            res['truncated'] = True; break          # a flood of counterexamples: enough to report, the rest adds nothing
+        for tail in ('split2', 'split3', 'zero', 'zero-mid', 'huge'):
+            if tail == 'huge' and len(pre) > 1: continue
+            if tail == 'split2' or tail == 'huge': ops = list(pre) + [('adv',), ('adv',)]
             elif tail == 'split3': ops = list(pre) + [('adv',), ('adv',), ('adv',)]
             elif tail == 'zero': ops = list(pre) + [('adv0',)]
             else: ops = list(pre) + [('adv',), ('adv0',), ('adv',)]
@@ -40,7 +43,10 @@ def _run_config(args):
             ctx.fapps = []
             def h(m):
                 for c in ctx.valid(comp_ids): m.assume(c)
-                return run_history(ctx, m, config, rops, dts)
+                if tail == 'huge':
+                    # steps whose sum saturates the clock: at least one of the two steps is >= 2^64 s (still a finite f32)
+                    m.assume(z3.Or(z3.fpGEQ(dts[-1], fpv32(2.0 ** 64)), z3.fpGEQ(dts[-2], fpv32(2.0 ** 64))))
+                return run_history(ctx, m, config, rops, dts, bound=(tail != 'huge'))
             rs = m.explore(h)
             res['histories'] += 1; res['paths'] += len(rs)
             for r in rs:
@@ -52,9 +58,23 @@ def _run_config(args):
                 base = recs[len(pre)][1]            # animator after the prefix
                 final = recs[-1][1]
                 res['obligations'] += 1
-                sol = z3.Solver(); sol.set('timeout', 20000); sol.add(*r.pc); sol.add(*ax)
+                sol = z3.Solver(); sol.set('timeout', 8000); sol.add(*r.pc); sol.add(*ax)
                 n0 = base.f[F_DURATION].f[0].t
-                if tail in ('split2', 'split3', 'zero-mid'):
+                if tail == 'huge':
+                    # advance(a + b) with a finite a + b >= 2^64 s saturates the time in state at Duration::MAX (documented on advance);
+                    # the split schedule must end at the same instant and show the values of that instant
+                    from mirsym.models import DUR_MAX
+                    total = z3.BitVecVal(DUR_MAX, 128)
+                    cur = base.f[F_STATE].d
+                    exp = values_of(base)
+                    tls = base.f[F_TIMELINES].f[0].items[cur]
+                    if isinstance(tls.d, int) and tls.d == 1:
+                        for comp in tls.p[1][0].f[0].items:
+                            kk = z3.simplify(comp.f[0].t).as_long()
+                            exp = ctx.Fk(kk)(comp.f[1].t, S(total))
+                    sol.add(z3.Or(values_of(final) != exp, final.f[F_DURATION].f[0].t != total))
+                    c = sol.check()
+                elif tail in ('split2', 'split3', 'zero-mid'):
                     # reference: ONE accumulation of the elapsed Durations, then one evaluation at the accumulated time
                     k0 = len(pre)
                     total = n0
@@ -199,21 +219,32 @@ def main(tier):
     # sub-millisecond steps, mixed and very long steps.  Oracle (a): on grid steps the split schedule and the single step end
     # on identical values; oracle (b), any steps: the real animator agrees after every operation with the reference animator
     # of replay_anim, whose time in state is the plain sum of Duration::from_secs_f32(step) (the documented accumulation).
-    palettes = [None, [0.75, 1.25, 0.5], [0.0005, 0.0005, 0.0005], [2.0 ** -11, 2.0 ** -11, 2.0 ** -12], [0.25, 0.0005, 0.75], [1000.0, 0.5, 100000.0], [0.001, 0.002, 0.004]]
-    for _, config, s in sats[:40]:
+    palettes = [None, [0.75, 1.25, 0.5], [0.0005, 0.0005, 0.0005], [2.0 ** -11, 2.0 ** -11, 2.0 ** -12], [0.25, 0.0005, 0.75], [1000.0, 0.5, 100000.0], [0.001, 0.002, 0.004],
+                # a long time in state followed by short frames (component 0 then loops forever with a 1 s cycle, so that the position
+                # inside the cycle is visible), and a step that saturates the clock
+                ('1;0;inf;false', [65536.0, 0.003, 0.003]), ('1;0;inf;false', [262144.0, 0.01, 0.01]), ('5;0;none;false', [1.0, 1e20, 1.0]), ('5;0;none;false', [1e20, 1.0, 1.0])]
+    # candidates: the shortest few of every schedule shape (three-step shapes are needed for the long-run palettes)
+    cands = []
+    for tl in ('split2', 'huge', 'split3', 'zero', 'zero-mid'):
+        # prefer configurations whose initial state has a single timeline (component 0: the one the palettes' timing applies to)
+        of_tail = sorted([x for x in sats if x[2]['tail'] == tl], key=lambda x: (0 if (x[1][0] is not None and len(x[1][0]) == 1) else 1, x[0], str(x[1])))
+        cands += of_tail[:8]
+    for _, config, s in cands:
         if done >= 2: break
         ops = [tuple(o) for o in s['ops']]
         cfgnames = ['none' if c is None else ('merged' if len(c) > 1 else 'single') for c in config]
-        npre = len(ops) - (2 if s['tail'] == 'split2' else 3 if s['tail'] in ('split3', 'zero-mid') else 1)
+        npre = len(ops) - (2 if s['tail'] in ('split2', 'huge') else 3 if s['tail'] in ('split3', 'zero-mid') else 1)
         for pal in palettes:
+            timing = None
             if pal is None:
                 if not s.get('dts'): continue
                 import struct as _st
                 vals = [_st.unpack('>f', _st.pack('>I', b))[0] for b in s['dts']]
-                if any(v != v or v < 0 or v > 1e12 for v in vals): continue
+                if any(v != v or v < 0 or v > 3.4e38 for v in vals): continue
                 split_ops = [('adv:0x%08x' % (0 if o[0] == 'adv0' else s['dts'][i])) if o[0] in ('adv', 'adv0') else 'set:%d' % o[1] for i, o in enumerate(ops)]
                 single_ops = None
             else:
+                if isinstance(pal, tuple): timing, pal = pal
                 it = iter(pal)
                 split_ops = [('adv:%r' % (0.0 if o[0] == 'adv0' else next(it, 0.25)) if o[0] in ('adv', 'adv0') else 'set:%d' % o[1]) for o in ops]
                 single_ops = None
@@ -221,6 +252,7 @@ def main(tier):
                     tail_sum = sum(float(x[4:]) for x in split_ops[npre:])
                     single_ops = split_ops[:npre] + (['adv:%r' % tail_sum] if s['tail'] != 'zero' else [])
             cases = [{'kind': 'animator_history', 'config': cfgnames, 'ops': split_ops}]
+            if pal is not None and timing: cases[0]['timing'] = timing
             if single_ops is not None: cases.append({'kind': 'animator_history', 'config': cfgnames, 'ops': single_ops})
             nat = run_replay(cases, 'dev', 'replay_anim')
             check.traces_validated += 1
